@@ -244,6 +244,54 @@ theorem C13_dict_flat_group_mid (d : Dicts) (mt : Bytes) (G d0 : Tag) (ts : List
   rw [e] at this
   exact this
 
+/-- the same with the group LAST in the body (CheckSum closes it — the position in which the unchanged code also left `10=` inside
+    `bodyBytes`, D7) -/
+theorem C13_dict_flat_group_last (d : Dicts) (mt : Bytes) (G d0 : Tag) (ts : List Tag) (C : List DNode)
+    (hg : FlatGroup d mt G C) (hC : C.map DNode.tag = d0 :: ts)
+    (t8 t9 t35 t10 : TagValue) (preA : List TagValue) (es : List (List (Tag × Bytes)))
+    (hw8 : IsWire t8) (hw9 : IsWire t9) (hw35 : IsWire t35) (hw10 : IsWire t10)
+    (h8 : t8.tag = 8) (h9 : t9.tag = 9) (h35 : t35.tag = 35) (h10 : t10.tag = 10) (hv : t35.value = mt)
+    (hpre : PlainFields d preA) (hGi : inInt64 G)
+    (hGh : isHeaderField d G = false) (hGt : isTrailerField d G = false)
+    (hes : ∀ e ∈ es, EntryOK d0 (d0 :: ts) e) (hval : ∀ e ∈ es, ∀ p ∈ e, inInt64 p.1 ∧ ∀ c ∈ p.2, c ≠ SOH)
+    (hn : es.length < 9223372036854775808)
+    (h10m : (10 : Tag) ∉ d0 :: ts) (hh10 : isHeaderField d 10 = false)
+    (hbl : atoi t9.value = .ok ((fieldsLength (t8 :: t9 :: t35 :: ((preA ++ countTV G es.length :: es.flatMap serEntry) ++ [t10])) : Nat) : Int)) :
+    ∃ (m : Message) (f : Field),
+      parseMessage Fixes.cur d (wireOf (t8 :: t9 :: t35 :: ((preA ++ countTV G es.length :: es.flatMap serEntry) ++ [t10]))) = .ok m ∧
+      m.fields = t8 :: t9 :: t35 :: ((preA ++ countTV G es.length :: es.flatMap serEntry) ++ [t10]) ∧
+      alFind m.body.lookup G = some f ∧
+      getGroup (flatTmpl (d0 :: ts)) (f.full m.fields) = .ok (readSpec [t10] es) ∧ (readSpec [t10] es).length = es.length := by
+  have hM : ∀ tv ∈ es.flatMap serEntry, IsWire tv ∧ isGroupMember tv.tag C = true := by
+    intro tv htv
+    obtain ⟨e, he, hm⟩ := List.mem_flatMap.1 htv
+    refine ⟨canonTV_isWire tv (serEntry_canon e (hval e he) tv hm), ?_⟩
+    rw [isGroupMember_iff, hC]
+    obtain ⟨p, hp, hpt⟩ := serEntry_tags e tv hm
+    obtain ⟨v0, e', hee, he'⟩ := hes e he
+    rw [hpt]; subst hee
+    rcases List.mem_cons.1 hp with h | h
+    · subst h; simp
+    · exact (he' p h).2
+  have hg0 : IsWire (countTV G es.length) := canonTV_isWire _ (canon_init G _ (fun c hc => by
+      have := List.all_eq_true.1 (fmtNat_all_digits es.length) c hc
+      have := (isDigit_iff c).1 this; unfold SOH; omega) hGi)
+  obtain ⟨m, hparse, hfields, hfind⟩ := parse_dict_group_last hg t8 t9 t35 (countTV G es.length) t10 preA (es.flatMap serEntry)
+    hw8 hw9 hw35 hw10 h8 h9 h35 h10 hv hpre hg0 rfl hGh hGt hM (by
+      cases hc : isGroupMember 10 C with
+      | false => rfl
+      | true => exact absurd ((isGroupMember_iff _ _).1 hc) (by rw [hC]; exact h10m))
+    hh10 hbl
+  refine ⟨m, _, hparse, hfields, hfind, ?_, readSpec_length _ _⟩
+  rw [hfields]
+  have hL : t8 :: t9 :: t35 :: ((preA ++ countTV G es.length :: es.flatMap serEntry) ++ [t10]) =
+      (t8 :: t9 :: t35 :: preA) ++ countTV G es.length :: (es.flatMap serEntry ++ [t10]) := by simp
+  have := read_back_flat _ (t8 :: t9 :: t35 :: preA) [t10] G d0 ts es hL hes hn
+    (fun f r hfr => by simp only [List.cons.injEq] at hfr; rw [← hfr.1, h10]; exact h10m)
+  have e : (t8 :: t9 :: t35 :: preA).length = 3 + preA.length := by simp; omega
+  rw [e] at this
+  exact this
+
 /-! ## not (yet) theorems -/
 
 /-- round trip without dictionary, any nesting depth: what `getgrp` must observe after build + parse -/
@@ -270,7 +318,7 @@ example :
 
 /- Clause checklist (properties.jsonl C13):
    "same number of entries"                                  C13_read_count, C13_write_starts_with_count, C13_read_zero
-   with the dictionary that defines the group (no nested groups) C13_dict_flat_group_mid (parseGroup + GetGroup through the dictionary template)
+   with the dictionary that defines the group (no nested groups) C13_dict_flat_group_mid, C13_dict_flat_group_last (parseGroup + GetGroup through the dictionary template)
    the whole trip build → parse (no dictionary) → GetGroup       C13_roundtrip_nodict_flat (templates without nesting; any message around the group)
    "same fields and values in the same order, nested groups" C13_roundtrip_flat (Write then Read, templates without nesting, any setter calls),
                                                              C13_read_inverts_wire_flat (whole Read, templates without nesting);
